@@ -50,6 +50,77 @@ fn add_unit(b: &DateTime, unit: usize, n: u32) -> DateTime {
     }
 }
 
+/// Route independence: a difference is a function of the two instants, not of how the operands were built.  One operand
+/// is a midnight reached through another public route — `x -= Time(own time of day)`, `x += Time(rest of the day)`,
+/// `DateTime::from(Date::from(x))`, clear_until_hour on an offset-free value, sub_nanos of its own time of day — and must
+/// give the same seven differences, in both directions, as the independently built value of that instant.
+fn judge_rerouted(rec: &mut Rec, rng: &mut Rng) {
+    use astrolabe::{Date, Offset, OffsetUtilities};
+    rec.eval();
+    rec.api("*_since on operands reached through other routes");
+    let (i, _) = gen_instant(rng, 3);
+    let tod = i.rem_euclid(D);
+    let mi = i - tod;
+    let Some((x, _)) = sane_value(i, 0) else {
+        rec.bin(SKIP_START);
+        return;
+    };
+    let route = rng.below(5);
+    let name = ["x -= Time(own time of day)", "x += Time(rest of the day)", "DateTime::from(Date::from(x))", "clear_until_hour", "sub_nanos/sub_seconds of the own time of day"][route as usize];
+    let (built, target): (Result<DateTime, Panic>, i128) = match route {
+        0 => (trap(|| { let mut m = x; m -= Time::from_nanos(tod as u64).unwrap(); m }), mi),
+        1 => {
+            if tod == 0 {
+                return;
+            }
+            (trap(|| { let mut m = x; m += Time::from_nanos((D - tod) as u64).unwrap(); m }), mi + D)
+        }
+        2 => (trap(|| DateTime::from(Date::from(x))), mi),
+        3 => (trap(|| x.clear_until_hour()), mi),
+        _ => (trap(|| x.sub_nanos((tod % NS) as u32).sub_seconds((tod / NS) as u32)), mi),
+    };
+    rec.bin("rerouted/compared");
+    rec.nontrivial(hash_i128s(&[i, route as i128, 0x6E]));
+    let Ok(m) = built else {
+        rec.bin("rerouted/route-panicked(other-property)");
+        return;
+    };
+    let Some((m0, _)) = sane_value(target, 0) else {
+        rec.bin(SKIP_EXPECTED);
+        return;
+    };
+    // the other operand: midnight-aligned a few days away, the same instant, or anything
+    let j = match rng.below(4) {
+        0 => target + rng.range_i128(-40, 40) * D,
+        1 => target,
+        2 => target + rng.range_i128(-40, 40) * D + rng.range_i128(-NS, NS),
+        _ => gen_instant(rng, 3).0,
+    }
+    .clamp(MIN_INSTANT + 3 * D, MAX_INSTANT - 3 * D);
+    let o2 = gen_offset(rng);
+    let Some((y, _)) = sane_value(j, o2) else {
+        rec.bin(SKIP_START);
+        return;
+    };
+    let m_off = if rng.chance(1, 2) { m } else { m.set_offset(Offset::Fixed(o2)) };
+    let m0_off = if rng.chance(1, 2) { m0 } else { m0.set_offset(Offset::Fixed(o2)) };
+    let all = |a: &DateTime, b: &DateTime| -> Result<Vec<i128>, Panic> {
+        let (a, b) = (*a, *b);
+        trap(move || vec![a.days_since(&b) as i128, a.hours_since(&b) as i128, a.minutes_since(&b) as i128, a.seconds_since(&b) as i128, a.millis_since(&b), a.micros_since(&b), a.nanos_since(&b), b.days_since(&a) as i128, b.hours_since(&a) as i128, b.seconds_since(&a) as i128, b.nanos_since(&a), a.duration_between(&b).as_nanos() as i128, (a == b) as i128, (a < b) as i128])
+    };
+    match (all(&m_off, &y), all(&m0_off, &y)) {
+        (Ok(g), Ok(e)) => {
+            if g != e {
+                let names = ["days_since", "hours_since", "minutes_since", "seconds_since", "millis_since", "micros_since", "nanos_since", "reverse days_since", "reverse hours_since", "reverse seconds_since", "reverse nanos_since", "duration_between", "==", "<"];
+                let k = (0..g.len()).find(|k| g[*k] != e[*k]).unwrap_or(0);
+                rec.violation(format!("C06|rerouted-operand|{}|depends-on-how-the-operand-was-built|{}", names[k], name), || json!({"instant_of_the_operand": show(target), "built_by": name, "from": show(i), "other_operand": {"instant": show(j), "offset": o2}, "differences(with the rerouted operand)": format!("{:?}", g), "differences(with the independently built operand)": format!("{:?}", e)}));
+            }
+        }
+        (Err(p), Ok(_)) => rec.violation(format!("C06|rerouted-operand|*_since|panic|{},{}|{}", p.class, p.site(), name), || json!({"instant_of_the_operand": show(target), "built_by": name, "panic": p.to_json()})),
+        _ => rec.bin(SKIP_EXPECTED),
+    }
+}
+
 fn judge_pair(rec: &mut Rec, p: &Pair) {
     rec.eval();
     rec.bin(p.class);
@@ -194,6 +265,7 @@ pub fn run(ctx: &Ctx) -> PropResult {
         let p = gen_pair(rng);
         judge_pair(rec, &p);
     }));
+    wls.push(Workload::cases("operands_reached_through_other_routes", ctx.count(60_000, 1_500_000), |rec, _, rng| judge_rerouted(rec, rng)));
     wls.push(Workload::cases("time_pairs", ctx.count(150_000, 4_000_000), |rec, _, rng| {
         let dn = 86_400_000_000_000u64;
         let n1 = match rng.below(3) {
@@ -282,10 +354,13 @@ pub fn run(ctx: &Ctx) -> PropResult {
         judge_pair(rec, &p);
     }));
     wls.push(Workload::cases("offset_local_twins", ctx.count(3_000, 40_000), |rec, _, rng| super::localzone::twin_pair_case(rec, rng, "C06")));
+    wls.push(Workload::cases("trait_dispatch_vs_method_syntax", ctx.count(8_000, 200_000), |rec, _, rng| super::ufcs::case(rec, rng, "C06")));
     let out = run_workloads(ctx, wls);
     let mut meta = PropMeta::default();
     meta.rule = "The C03 pair generator (instants in 8 strata x deltas {0, ±1 ns, sub-second, k units ± few ns for each of the 7 units, days, 2^62 ns, uniform} x two independent offsets): each of the 7 DateTime::*_since must equal (i_a − i_b)/unit truncated toward zero in i128, be antisymmetric, and (for counts < 2^32 with a representable upper bound) satisfy b.add_u(n) <= a < b.add_u(n+1); duration_between must equal |i_a − i_b| both ways. Time pairs (6 units, stored nanoseconds) and Date pairs (days) likewise. Every pair is non-trivial (bins report the borrow / sub-unit / negative-path classes); distinct by input hash. Differences next to 'magic magnitudes' (2^15…2^64 of every unit from ns to weeks, ± jitter up to a day) and instants at such magnitudes from 0001-01-01 / 1970-01-01 are part of the pair generator. Offset::Local twins (pairs) for all seven *_since and duration_between. Operands whose local reading lies beyond a range end; Time pairs under any Offset::Fixed(i32); sibling call sequences (pair, reversed pair, pairs sharing an operand with a sibling of the other).".into();
-    meta.required_bins = vec![
+    meta.rule.push_str(" The property's trait methods are also called through the trait (generic code / UFCS) and must agree with method syntax on the same operands (a type may grow inherent twins of its trait methods).");
+    meta.rule.push_str(" Route independence: one operand is a midnight reached through `x -= Time(own time of day)`, `x += Time(rest of the day)`, DateTime::from(Date::from(x)), clear_until_hour or sub_seconds/sub_nanos of its own time of day; all differences in both directions, duration_between, == and < must equal those of the independently built value of that instant.");
+    meta.required_bins = vec!["rerouted/compared", "trait-dispatch/compared", 
         "outward/local-reading-beyond-the-range-end",
         "sequence/sibling-calls",
         "local-twin/judged", "local-twin/synthetic-fixed-zone", "local-twin/real-zone-with-transitions",
